@@ -22,6 +22,25 @@ DECLINED = ["equality of the finished session with consensus validity", "SIGPUSH
 ROLE = {"vin": {"txin_index", "select_index", "i"}, "amounts": {"txin_index"}, "vout": {"txin_vout_index"}}
 
 
+def index_vars(func, idx, depth=0):
+    """names of the variables an index expression depends on; a local that is initialised once and never reassigned
+    (a hoisted sub-expression) stands for the variables of its initialiser"""
+    bases = {id(x.get("base")) for x in walk(idx) if x["k"] == "mem" and x.get("base") is not None}
+    out = set()
+    for x in walk(idx):
+        if x["k"] not in ("ref", "mem") or id(x) in bases or x.get("dk") == "enumc":
+            continue
+        if x["k"] == "ref" and x.get("dk") == "local" and depth < 4 and x["n"] not in ROLE["vin"] | ROLE["vout"] | ROLE["amounts"]:
+            decl = [d for n in func.nodes() if n["k"] == "decl" for d in n["decls"] if d.get("d") == x.get("d") and d.get("init") is not None]
+            writes = [n for n in func.nodes() if (n["k"] in ("assign", "cassign") and n["lhs"].get("k") == "ref" and n["lhs"].get("d") == x.get("d"))
+                      or (n["k"] == "un" and n.get("op") in ("++", "--") and n["e"].get("k") == "ref" and n["e"].get("d") == x.get("d"))]
+            if len(decl) == 1 and not writes:
+                out |= index_vars(func, decl[0]["init"], depth + 1)
+                continue
+        out.add(x["n"])
+    return out
+
+
 def run(ctx, anchors=None):
     fb, prog = ctx.facts, ctx.prog
     ctx.rule("R03.1", "index roles: vin/amounts by the input index, vout by the output index; output index from the same input's prevout.n")
@@ -55,8 +74,7 @@ def run(ctx, anchors=None):
                 continue
             if cont == "vin" and not ("tx" in btxt):
                 continue
-            bases = {id(x.get("base")) for x in walk(idx) if x["k"] == "mem" and x.get("base") is not None}
-            ivars = {x["n"] for x in walk(idx) if x["k"] in ("ref", "mem") and id(x) not in bases and x.get("dk") != "enumc"}
+            ivars = index_vars(f, idx)
             if astq.const_value(idx) is not None:
                 continue
             nsub += 1
